@@ -393,3 +393,30 @@ Proof.
     + apply (ewy_deriv sa sb fw_divide (b_jvp BDivide) _ _ _ chain2_div).
     + apply (ewy_deriv sa sb fw_pow (b_jvp BPow) _ _ _ chain2_pow).
 Qed.
+
+(* readable instances: one operand curve x with derivative dx at 0 (e.g. the line x0 + t dx) *)
+Corollary jvp_is_derivative_unary (u : unop) (s : tshape) (x : R -> list R) (dx : list R) :
+  cderiv x dx -> (forall i, (i < tsize s)%nat -> un_dom u (nth i (x 0) 0)) ->
+  cderiv (fun t => un_eval R 0 (un_fw u) (tsize s) (x t))
+         (map (fun e : nat * (nat * nat) => nth (snd (snd e)) dx 0 * un_bw u (nth (snd (snd e)) (x 0) 0) (un_fw u (nth (snd (snd e)) (x 0) 0)) 1)
+              (identity_pairs (tsize s))).
+Proof.
+  intros Hx Hd.
+  assert (Hk : forall k, cderiv (fun t => nth k [x t] []) (nth k [dx] [])) by (intro k; apply cderiv_single; exact Hx).
+  exact (jvp_is_derivative (RUn u s) (fun t => [x t]) [dx] Hk eq_refl Hd 0%nat).
+Qed.
+Corollary jvp_is_derivative_binary (b : bop) (sa sb : tshape) (x y : R -> list R) (dx dy : list R) :
+  ew_ok sa sb = true -> cderiv x dx -> cderiv y dy ->
+  (forall e, In e (ab_fw sa sb (ew_shape sa sb)) -> b_dom b (nth (fst (snd e)) (x 0) 0) (nth (snd (snd e)) (y 0) 0)) ->
+  cderiv (fun t => ab_eval R 0 (b_fw b) (ab_fw sa sb (ew_shape sa sb)) (x t) (y t))
+         (map (fun e : nat * (nat * nat) =>
+                 b_jvp b (nth (fst (snd e)) (x 0) 0) (nth (snd (snd e)) (y 0) 0) (nth (fst (snd e)) dx 0) (nth (snd (snd e)) dy 0))
+              (ab_fw sa sb (ew_shape sa sb))).
+Proof.
+  intros Hok Hx Hy Hd.
+  assert (Hk : forall k, cderiv (fun t => nth k [x t; y t] []) (nth k [dx; dy] [])).
+  { intros [|[|k]]; [exact Hx|exact Hy|].
+    replace (nth (S (S k)) [dx; dy] []) with (@nil R) by (destruct k; reflexivity).
+    apply (cderiv_ext (fun _ => [])); [intro t; destruct k; reflexivity|apply cderiv_nil]. }
+  exact (jvp_is_derivative (RBin b sa sb) (fun t => [x t; y t]) [dx; dy] Hk Hok Hd 0%nat).
+Qed.
